@@ -323,9 +323,7 @@ func runRouting(c *Ctx, prop string) {
 		c.SpecFail("fixture", prop, err.Error(), "descriptors", prop+"/fixture", "cannot build descriptors")
 		return
 	}
-	if prop == "C01" {
-		c01API(c)
-	}
+	c01API(c, prop)
 	nSets := c.N(500, 12000)
 	for si := 0; si < nSets; si++ {
 		rules := genRuleSet(c, 3)
@@ -649,8 +647,10 @@ func c01Drift(c *Ctx) {
 	}
 }
 
-func c01API(c *Ctx) {
-	c01Drift(c)
+func c01API(c *Ctx, prop string) {
+	if prop == "C01" {
+		c01Drift(c)
+	}
 	type rec struct {
 		method string
 		msg    *dynamicpb.Message
@@ -670,6 +670,24 @@ func c01API(c *Ctx) {
 		{"P", &annotations.HttpRule{Pattern: &annotations.HttpRule_Patch{Patch: "/api1/p/{name=shelves/*/books/*}"}, Body: "nested"}},
 	}
 	var ms []*MethodSpec
+	// a streaming method declared BEFORE the unary ones (descriptor order differs from the ServiceDesc's lists)
+	ms = append(ms, &MethodSpec{Name: "AStream", In: "Req", Out: "Reply", ServerStream: true, Rule: getRule("/api1/stream/{name}"),
+		Stream: func(fx *Fixture, msp *MethodSpec, st grpc.ServerStream) error {
+			in := fx.NewMsg("Req")
+			if err := st.RecvMsg(in); err != nil {
+				return err
+			}
+			got = &rec{"AStream", in}
+			return nil
+		}})
+	// two variable patterns of one shape that differ only in a literal
+	rules = append(rules, struct {
+		name string
+		rule *annotations.HttpRule
+	}{"Bk", getRule("/api1/r/{name=books/*}")}, struct {
+		name string
+		rule *annotations.HttpRule
+	}{"Sh", getRule("/api1/r/{name=shelves/*}")})
 	for _, r := range rules {
 		r := r
 		ms = append(ms, &MethodSpec{Name: "A" + r.name, In: "Req", Out: "Reply", Rule: r.rule,
@@ -678,10 +696,35 @@ func c01API(c *Ctx) {
 				return dynamicpb.NewMessage(in.Descriptor().ParentFile().Messages().ByName("Reply")), nil
 			}})
 	}
+	// a service whose registration fails at its second method, after its first rule went below an
+	// existing variable node: none of its rules may ever dispatch
+	failH := func(ctx context.Context, in *dynamicpb.Message) (proto.Message, error) {
+		got = &rec{"Rejected", in}
+		return dynamicpb.NewMessage(in.Descriptor().ParentFile().Messages().ByName("Reply")), nil
+	}
+	ms = append(ms, &MethodSpec{Service: "Rejected", Name: "R1", In: "Req", Out: "Reply", Unary: failH, Rule: getRule("/api1/s/{name}/extra")},
+		&MethodSpec{Service: "Rejected", Name: "R2", In: "Req", Out: "Reply", Unary: failH, Rule: getRule("/api1/rejected/{no_such_field}")})
+	fixtureDeferRegistration = true
 	fx, err := NewFixture(ms, nil)
+	fixtureDeferRegistration = false
+	if err == nil {
+		fx.RegErr, fx.RegPanic = fx.RegisterOne("Svc")
+	}
 	if err != nil || fx.RegErr != nil || fx.RegPanic != nil {
-		c.SpecFail("fixture", "c01 api", fmt.Sprint(err, fx.RegErr, fx.RegPanic), "", "C01/fixture", "fixture")
+		c.SpecFail("fixture", "c01 api", fmt.Sprint(err, fx.RegErr, fx.RegPanic), "", prop+"/fixture", "fixture")
 		return
+	}
+	if rerr, rpn := fx.RegisterOne("Rejected"); rerr == nil || rpn != nil {
+		c.SpecFail("fixture", "c01 api: service Rejected (unknown field in its second rule)", fmt.Sprint(rerr, rpn), "an error", prop+"/api/invalid-service-accepted", "a service with an unresolvable rule is registered")
+	} else if prop == "C01" {
+		// the routing state the mux serves from knows none of the rejected service's rules
+		for _, pth := range []string{"/api1/s/x/extra", "/api1/s/y/extra", "/api1/rejected/1"} {
+			m, _, merr := fx.Mux.VerifSnapshot().Match(pth, "GET")
+			c.Eval("api-rejected-route", pth, true)
+			if merr == nil && m != nil {
+				c.SpecFail("api-rejected-route", "GET "+pth+" after the registration of service Rejected failed", "the published routing state resolves it", "no route", "C01/api/route-of-a-rejected-rule", "a rule of a registration that was rejected is part of the routing state: requests can be dispatched through a rule no accepted rule set contains")
+			}
+		}
 	}
 	set := func(m *dynamicpb.Message, path string, v protoreflect.Value) {
 		cur := protoreflect.Message(m)
@@ -706,6 +749,12 @@ func c01API(c *Ctx) {
 		cases = append(cases, tcase{"/api1/s/" + s, "AS", func(m *dynamicpb.Message) { set(m, "name", protoreflect.ValueOfString(s)) }})
 		cases = append(cases, tcase{"/api1/m/shelves/" + s + "/books/b1/tail", "AM", func(m *dynamicpb.Message) { set(m, "name", protoreflect.ValueOfString("shelves/"+s+"/books/b1")) }})
 		cases = append(cases, tcase{"/api1/v/" + s + "/deep/" + s + ":go", "AV", func(m *dynamicpb.Message) { set(m, "other_name", protoreflect.ValueOfString(s+"/deep/"+s)) }})
+	}
+	for _, s := range []string{"x", "shelves", "books"} {
+		s := s
+		cases = append(cases, tcase{"/api1/stream/" + s, "AStream", func(m *dynamicpb.Message) { set(m, "name", protoreflect.ValueOfString(s)) }})
+		cases = append(cases, tcase{"/api1/r/books/" + s, "ABk", func(m *dynamicpb.Message) { set(m, "name", protoreflect.ValueOfString("books/"+s)) }})
+		cases = append(cases, tcase{"/api1/r/shelves/" + s, "ASh", func(m *dynamicpb.Message) { set(m, "name", protoreflect.ValueOfString("shelves/"+s)) }})
 	}
 	for _, n := range []int64{0, 1, -1, 42, 2147483647, -2147483648} {
 		n := n
@@ -776,14 +825,17 @@ func c01API(c *Ctx) {
 		tc.build(want)
 		switch {
 		case pn != nil:
-			c.SpecFail("api-bind", "GET "+tc.path, fmt.Sprint("panic: ", pn), prototextS(want), "C01/api/panic", "panic")
+			c.SpecFail("api-bind", "GET "+tc.path, fmt.Sprint("panic: ", pn), prototextS(want), prop+"/api/panic", "panic")
 		case rec.Code != 200 || got == nil:
-			c.SpecFail("api-bind", "GET "+tc.path, fmt.Sprintf("%d %s", rec.Code, truncS(rec.Body.String(), 120)), "dispatched to "+tc.method, "C01/api/not-dispatched/"+tc.method, "a path instantiated from the method's template is not dispatched to it")
+			c.SpecFail("api-bind", "GET "+tc.path, fmt.Sprintf("%d %s", rec.Code, truncS(rec.Body.String(), 120)), "dispatched to "+tc.method, prop+"/api/not-dispatched/"+tc.method, "a path instantiated from the method's template is not dispatched to it")
 		case got.method != tc.method:
-			c.SpecFail("api-bind", "GET "+tc.path, "dispatched to "+got.method, tc.method, "C01/api/wrong-method", "dispatched to a method whose rules do not match")
+			c.SpecFail("api-bind", "GET "+tc.path, "dispatched to "+got.method, tc.method, prop+"/api/wrong-method", "dispatched to a method whose rules do not match")
 		case !proto.Equal(got.msg, want):
-			c.SpecFail("api-bind", "GET "+tc.path, prototextS(got.msg), prototextS(want), "C01/api/fields/"+tc.method, "the bound fields do not hold exactly the path text converted to their type (or another field was set)")
+			c.SpecFail("api-bind", "GET "+tc.path, prototextS(got.msg), prototextS(want), prop+"/api/fields/"+tc.method, "the bound fields do not hold exactly the path text converted to their type (or another field was set)")
 		}
+	}
+	if prop != "C01" {
+		return // the near misses are about soundness
 	}
 	// near misses must not reach any handler
 	type miss struct{ verb, path string }
@@ -792,6 +844,11 @@ func c01API(c *Ctx) {
 		"/api1/d/!!!", "/api1/m/shelves/s/books", "/api1/m/shelves/s/books/b/tail/x", "/api1/v/a/b", "/api1/v/a:stop", "/api1/s:x", "/api1:s/x", "/api1/n/ns/n", "/api1/w/1/2",
 		"/api1/p/shelves", "/api1/p/shelves/s1/books", "/api1/p/shelves/s1/books/b1", "/api1/p/shelves/s1/books/b1/x"} {
 		misses = append(misses, miss{"GET", p})
+	}
+	misses = append(misses, miss{"GET", "/api1/s/x/extra"}, miss{"GET", "/api1/rejected/1"}, miss{"GET", "/api1/r/rooms/1"}, miss{"GET", "/api1/r/books"})
+	// HTTP method tokens are case-sensitive: no rule carries "get" or "Get"
+	for _, v := range []string{"get", "Get", "gET"} {
+		misses = append(misses, miss{v, "/api1/s/x"}, miss{v, "/api1/i/7"}, miss{v, "/api1/r/books/1"})
 	}
 	// a path that ends inside the longer template's variable pattern, under the verb only that template carries
 	for _, p := range []string{"/api1/p/shelves/s1", "/api1/p/shelves", "/api1/p/shelves/s1/books", "/api1/p/shelves/s1/books/b1/x", "/api1/p/shelves/s1/books/"} {
@@ -816,13 +873,13 @@ func c01API(c *Ctx) {
 		c.Eval("api-near-miss", p, true)
 		c.Class("api:near-miss")
 		if pn != nil {
-			c.SpecFail("api-near-miss", p, fmt.Sprint("panic: ", pn), "no dispatch", "C01/api/panic", "panic")
+			c.SpecFail("api-near-miss", p, fmt.Sprint("panic: ", pn), "no dispatch", prop+"/api/panic", "panic")
 		} else if got != nil || rec.Code == 200 {
 			m := "?"
 			if got != nil {
 				m = got.method + " " + prototextS(got.msg)
 			}
-			c.SpecFail("api-near-miss", p, "dispatched: "+m, "no dispatch (4xx)", "C01/api/near-miss-dispatched", "a path no template matches (or whose capture does not convert) reached a handler")
+			c.SpecFail("api-near-miss", p, "dispatched: "+m, "no dispatch (4xx)", prop+"/api/near-miss-dispatched", "a path no template matches (or whose capture does not convert) reached a handler")
 		}
 	}
 }
